@@ -89,9 +89,14 @@ func cmdCheck(args []string) int {
 		return 2
 	}
 	defer os.RemoveAll(tmp)
-	replayDir := filepath.Join(verifDir, "replays")
+	// VERIF_OUT (development aid) redirects evidence and replay files, e.g. when a seeded change is tried
+	outDir := verifDir
+	if d := os.Getenv("VERIF_OUT"); d != "" {
+		outDir = d
+	}
+	replayDir := filepath.Join(outDir, "replays")
 	os.MkdirAll(replayDir, 0o755)
-	os.MkdirAll(filepath.Join(verifDir, "evidence"), 0o755)
+	os.MkdirAll(filepath.Join(outDir, "evidence"), 0o755)
 
 	selftestNote := ""
 	if !quick || os.Getenv("VERIF_SELFTEST") == "1" {
@@ -357,7 +362,7 @@ func cmdCheck(args []string) int {
 		"violations":  violations,
 	}
 	b, _ := json.MarshalIndent(ev, "", " ")
-	if err := os.WriteFile(filepath.Join(verifDir, "evidence", p.ID+".json"), b, 0o644); err != nil {
+	if err := os.WriteFile(filepath.Join(outDir, "evidence", p.ID+".json"), b, 0o644); err != nil {
 		fmt.Println("HARNESS:", err)
 		return 2
 	}
